@@ -111,7 +111,7 @@ def beale_grad(x: NDArrayFloat) -> NDArrayFloat:
     f1 = 1.5 - x[:-1] + x[:-1] * y1
     f2 = 2.25 - x[:-1] + x[:-1] * y2
     f3 = 2.625 - x[:-1] + x[:-1] * y3
-    grad = np.zeros_like(x)
+    grad = np.zeros_like(x, dtype=np.result_type(x, float))
     grad[:-1] += 2 * (y1 - 1) * f1 + 2 * (y2 - 1) * f2 + 2 * (y3 - 1) * f3
     grad[1:] += 2 * x[:-1] * f1 + 4 * x[:-1] * y1 * f2 + 6 * x[:-1] * y2 * f3
     return grad
